@@ -101,6 +101,15 @@ def _same(a, b, exact_only=False):
     return a == b
 
 
+def _churn(k):
+    """recycle small heap blocks with non-zero contents, so that a result that depends on uninitialised memory
+    (np.empty) does not happen to see zeros on every call"""
+    value = [0.0, 99.0, -3.0, 7.5, 1e6, float("nan")][k % 6]
+    for m in range(1, 12):
+        junk = [np.full(m, value, dtype=float) for _ in range(16)]
+        del junk
+
+
 def _history(item):
     """call one recipe in every variant; returns the case for Purity.tla"""
     name, seed, wk = item
@@ -112,16 +121,17 @@ def _history(item):
     for integral in (False, True):
         W = recipes.World(random.Random(seed), integral)
         args0, kw0 = mk(W)
-        kinds = ["C", "again", "F", "view"] if not integral else ["C", "int"]
+        kinds = ["C", "again", "F", "view"] if not integral else ["C", "again", "int"]
         for kind in kinds:
             if kind == "again" and base_objs is not None:
                 args = base_objs
             else:
                 args = [_variant(a, "C" if kind == "again" else kind) for a in args0]
                 args = [list(a) if isinstance(a, list) else a for a in args]
-            if kind == "C" and not integral:
+            if kind == "C":
                 base_objs = args
             before = [_digest(a) for a in args]
+            _churn(len(events))
             out, val, _ = monitor.call(fn, tuple(args), dict(kw0), budget=400000, wall=40)
             after = [_digest(a) for a in args]
             mutated = ["arg%d" % k for k in range(len(args)) if before[k] != after[k]]
